@@ -37,6 +37,16 @@ ShapeQuick ==
 ShapeBig ==
   /\ (IsUpd(lastAct') => Effective(lastAct'.upd))
   /\ NOther(trail') <= 2
+\* StateDB level: what StateDB offers — blocks (an Update is immediately followed by its Commit), SetRoot, LoadCache, a new
+\* instance; at most MaxOther of the latter
+ShapeSdb(maxOther) ==
+  /\ lastAct'.name \notin {"AtomicUpdate", "Stash"}
+  /\ (IsUpd(lastAct') => Canon(lastAct'.upd))
+  /\ (IsUpd(lastAct') /\ NUpd(trail') = 1) => <<0,0,1>> \notin DOMAIN lastAct'.upd
+  /\ (Len(trail) > 0 /\ trail[Len(trail)].name = "Update") => lastAct'.name = "Commit"
+  /\ NOther(trail') <= maxOther
+RootsGenSdb    == ShapeSdb(1) /\ RootsGenLog
+RootsGenSdbBig == ShapeSdb(2) /\ RootsGenLog
 RootsGenQuick == ShapeQuick /\ RootsGenLog
 RootsGenBig   == ShapeBig /\ RootsGenLog
 
